@@ -67,6 +67,35 @@ def strip(e, calls=TRANSPARENT_CALLS, casts=True):
             return e
 
 
+def deep_strip(e, calls=TRANSPARENT_CALLS):
+    """Remove reference/deref/transparent-call wrappers everywhere in e."""
+    if not isinstance(e, tuple) or not e:
+        return e
+    e = strip(e, calls)
+    k = e[0]
+    if k == "call":
+        return (k, e[1], tuple(deep_strip(a, calls) for a in e[2])) + e[3:]
+    if k == "bin":
+        return (k, e[1], deep_strip(e[2], calls), deep_strip(e[3], calls))
+    if k == "un":
+        return (k, e[1], deep_strip(e[2], calls))
+    if k == "cast":
+        return (k, e[1], deep_strip(e[2], calls), e[3])
+    if k in ("field", "as"):
+        return (k, deep_strip(e[1], calls), e[2])
+    if k == "index":
+        return (k, deep_strip(e[1], calls), deep_strip(e[2], calls))
+    if k == "discr":
+        return (k, deep_strip(e[1], calls))
+    if k == "agg":
+        return (k, e[1], e[2], tuple((n, deep_strip(v, calls)) for n, v in e[3]))
+    if k in ("tuple", "array", "phi"):
+        return (k, tuple(deep_strip(v, calls) for v in e[1]))
+    if k == "closure":
+        return (k, e[1], tuple(deep_strip(v, calls) for v in e[2]))
+    return e
+
+
 def walk(e):
     """All sub-expressions, pre-order."""
     stack = [e]
@@ -206,8 +235,12 @@ class CallSite:
 
     @property
     def callee(self):
-        """Resolved callee if statically resolved, else the declared one."""
-        return self.resolved or self.decl
+        """Resolved callee when it is a local function, else the declared
+        (trait-level / inherent) path, which is canonical for external items."""
+        t = self.t
+        if t.get("dispatch") == "static" and t.get("resolved_local"):
+            return t.get("resolved")
+        return t.get("decl")
 
     @property
     def dispatch(self):
@@ -537,7 +570,7 @@ class Fn:
         return ("phi", tuple(uniq))
 
     def _call_expr(self, t, b, seen, depth):
-        callee = t.get("resolved") if t.get("dispatch") == "static" else None
+        callee = t.get("resolved") if (t.get("dispatch") == "static" and t.get("resolved_local")) else None
         callee = callee or t.get("decl") or "<indirect>"
         args = tuple(self._operand(a, seen, depth) for a in t.get("args", []))
         if "decl" not in t and "func" in t:
